@@ -113,7 +113,9 @@ def gen(rng, tier):
             fields = rng.sample(fields, rng.randrange(2, 5))
             if ["i-input", ":string"] not in fields:
                 fields.append(["i-input", ":string"])
-        cases.append({"k": "lines", "fields": fields, "lines": lines, "nl": rng.random() < 0.8})
+        # without a final newline an empty last line is not a line of the file at all
+        nl = rng.random() < 0.8 or bool(lines and lines[-1] == "")
+        cases.append({"k": "lines", "fields": fields, "lines": lines, "nl": nl})
     return cases
 
 
